@@ -719,9 +719,10 @@ impl Update {
         } else {
             Vec::new()
         };
-        // Update the rows.
-        for value_refs in rows.iter_mut() {
-            let should_update = match self.condition {
+        // Work out which rows the update applies to.
+        let selected: Vec<bool> = rows
+            .iter()
+            .map(|value_refs| match self.condition {
                 Some(ref expr) => {
                     let values: Vec<Value> = value_refs
                         .iter()
@@ -731,7 +732,53 @@ impl Update {
                     expr.eval(&row).to_bool()
                 }
                 None => true,
-            };
+            })
+            .collect();
+        // If a primary key column is being assigned, make sure that the keys
+        // will still be unique (the rows get re-sorted by key below).
+        let key_indices = table.primary_key_indices();
+        let assigns_key = self.updates.iter().any(|(column_name, _)| {
+            table
+                .get_column(column_name)
+                .is_some_and(|column| column.is_primary_key())
+        });
+        if assigns_key {
+            let mut keys_set = HashSet::<Vec<Value>>::new();
+            for (value_refs, &is_selected) in rows.iter().zip(selected.iter())
+            {
+                let keys: Vec<Value> = key_indices
+                    .iter()
+                    .map(|&index| {
+                        let assigned = self
+                            .updates
+                            .iter()
+                            .rev()
+                            .find(|(column_name, _)| {
+                                table.index_for_column_name(column_name)
+                                    == Some(index)
+                            })
+                            .filter(|_| is_selected);
+                        match assigned {
+                            Some((_, value)) => value.clone(),
+                            None => value_refs[index].to_value(string_pool),
+                        }
+                    })
+                    .collect();
+                if keys_set.contains(&keys) {
+                    already_exists!(
+                        "Update would leave table {:?} with multiple rows \
+                         with key {:?}",
+                        self.table_name,
+                        keys
+                    );
+                }
+                keys_set.insert(keys);
+            }
+        }
+        // Update the rows.
+        for (value_refs, &should_update) in
+            rows.iter_mut().zip(selected.iter())
+        {
             if should_update {
                 for (column_name, value) in self.updates.iter() {
                     let index =
@@ -741,6 +788,15 @@ impl Update {
                     *value_ref = ValueRef::create(value.clone(), string_pool);
                 }
             }
+        }
+        // Keep the rows in primary key order.
+        if assigns_key {
+            rows.sort_by_cached_key(|value_refs| -> Vec<Value> {
+                key_indices
+                    .iter()
+                    .map(|&index| value_refs[index].to_value(string_pool))
+                    .collect()
+            });
         }
         // Write the table back out to the file.
         let stream = comp.create_stream(&stream_name)?;
